@@ -330,6 +330,7 @@ fn check_blocking(op: &str, r: Result<(), Error>, seen: &Option<Seen>, type_: u3
 fn run(faulty: bool) {
     let tk = [TKind::Model, TKind::ModelLegacy, TKind::MmioModern, TKind::MmioLegacy, TKind::Pci, TKind::ModelPciLike][choose(6) as usize];
     crate::scen::queue::draw_device_policy();
+    crate::scen::queue::draw_sharing_mode();
     let mut feats = F_VERSION_1 | F_INDIRECT * choose(2) | F_EVENT_IDX * choose(2) | F_ACCESS_PLATFORM * choose(2) | F_RO * (choose(4) == 1) as u64 | F_FLUSH * choose(2);
     feats |= choose(1 << 16) & !((1 << 5) | (1 << 9)) & 0xffff; // other device bits, offered but unsupported
     if tk.legacy() {
